@@ -57,11 +57,64 @@ class ClassInfo(object):
         self.properties = {}
 
 
+PINNED_LOCALS = os.path.join(os.path.dirname(os.path.dirname(os.path.abspath(__file__))), "contracts", "pinned_locals.json")
+
+
+def local_binding_order(fnnode):
+    """names a function binds itself (parameters excluded), in the order of their first binding in the source"""
+    params = {a.arg for a in fnnode.args.args + fnnode.args.kwonlyargs + fnnode.args.posonlyargs}
+    for a in (fnnode.args.vararg, fnnode.args.kwarg):
+        if a is not None:
+            params.add(a.arg)
+    seen = []
+    for n in ast.walk(fnnode):
+        if isinstance(n, ast.Name) and isinstance(n.ctx, ast.Store) and n.id not in params:
+            seen.append((n.lineno, n.col_offset, n.id))
+        elif isinstance(n, ast.ExceptHandler) and n.name and n.name not in params:
+            seen.append((n.lineno, n.col_offset, n.name))
+    out = []
+    for (_, _, nm) in sorted(seen):
+        if nm not in out:
+            out.append(nm)
+    return out
+
+
+def alpha_candidate(fnnode, pinned):
+    """{current name: pinned name} when the function binds as many new names as it lost pinned ones (matched in binding order) and none of
+    the pinned names is used for anything else in the function; None otherwise.  This is only ever a *guess* about which local plays which
+    role: contracts transported through it are re-proved from scratch, and a failure under a guess is reported as undecided, not as a violation."""
+    cur = local_binding_order(fnnode)
+    missing = [n for n in pinned if n not in cur]
+    new = [n for n in cur if n not in pinned]
+    if not missing or len(missing) != len(new):
+        return None
+    used = {n.id for n in ast.walk(fnnode) if isinstance(n, ast.Name)} | {n.arg for n in ast.walk(fnnode) if isinstance(n, ast.arg)}
+    if any(m in used for m in missing) or any(isinstance(n, (ast.Global, ast.Nonlocal)) for n in ast.walk(fnnode)):
+        return None
+    return dict(zip(new, missing))
+
+
+def alpha_rename(fnnode, mapping):
+    """rename locals in place (every occurrence, nested lambdas / comprehensions included): semantics-preserving because the target names
+    occur nowhere in the function"""
+    for n in ast.walk(fnnode):
+        if isinstance(n, ast.Name) and n.id in mapping:
+            n.id = mapping[n.id]
+        elif isinstance(n, ast.arg) and n is not fnnode and n.arg in mapping:
+            n.arg = mapping[n.arg]
+        elif isinstance(n, ast.ExceptHandler) and n.name in mapping:
+            n.name = mapping[n.name]
+
+
 class Program(object):
     """All modules of the repo package, indexed by qualified name."""
 
-    def __init__(self, repo=None, modules=("core", "algos", "backtest")):
+    def __init__(self, repo=None, modules=("core", "algos", "backtest"), alpha=None):
+        if alpha is None:
+            alpha = os.environ.get("PYVC_ALPHA") == "1"   # set by the task runner for its second attempt only
         self.repo = repo or REPO
+        self.alpha = {}  # qualname -> {current local: pinned local} applied to the parsed AST (only when alpha=True)
+        self._want_alpha = alpha
         self.classes = {}  # simple class name -> ClassInfo   (class names are unique across bt/*.py)
         self.functions = {}  # qualname -> FuncInfo
         self.module_src = {}
@@ -74,6 +127,28 @@ class Program(object):
             tree = ast.parse(src, filename=path)
             self.trees[m] = tree
             self._index("bt." + m, tree)
+        if self._want_alpha:
+            for q, mapping in self.alpha_candidates().items():
+                alpha_rename(self.functions[q].node, mapping)
+                self.alpha[q] = mapping
+
+    def alpha_candidates(self):
+        import json
+
+        try:
+            with open(PINNED_LOCALS) as f:
+                pinned = json.load(f)
+        except OSError:
+            return {}
+        out = {}
+        for q, names in pinned.items():
+            fi = self.functions.get(q)
+            if fi is None:
+                continue
+            m = alpha_candidate(fi.node, names)
+            if m:
+                out[q] = m
+        return out
 
     def _index(self, modname, tree):
         for node in tree.body:
